@@ -299,6 +299,53 @@ var perturbations = []perturbation{
 		}
 		return n, changed
 	}, sameFull},
+	{"reorder-store-values", func(r *rng, c *EvalCase) (*EvalCase, bool) {
+		// the same reordering inside the flags and segments reached through the store: clause
+		// values, target keys, included / excluded keys and per-kind key lists
+		n := cloneCase(c)
+		changed := false
+		shuf := func(xs *[]string) {
+			if len(*xs) > 1 {
+				*xs = shuffled(r, *xs)
+				changed = true
+			}
+		}
+		clauses := func(cs []WClause) {
+			for j := range cs {
+				if len(cs[j].Vals) > 1 && cs[j].Op != "segmentMatch" {
+					cs[j].Vals = shuffled(r, cs[j].Vals)
+					changed = true
+				}
+			}
+		}
+		for fi := range n.Store.Flags {
+			f := &n.Store.Flags[fi]
+			for i := range f.Rules {
+				clauses(f.Rules[i].Clauses)
+			}
+			for i := range f.Targets {
+				shuf(&f.Targets[i].Vals)
+			}
+			for i := range f.CTargets {
+				shuf(&f.CTargets[i].Vals)
+			}
+		}
+		for si := range n.Store.Segments {
+			s := &n.Store.Segments[si]
+			shuf(&s.Inc)
+			shuf(&s.Exc)
+			for i := range s.IncC {
+				shuf(&s.IncC[i].Vals)
+			}
+			for i := range s.ExcC {
+				shuf(&s.ExcC[i].Vals)
+			}
+			for i := range s.Rules {
+				clauses(s.Rules[i].Clauses)
+			}
+		}
+		return n, changed
+	}, sameFull},
 	{"reorder-clauses", func(r *rng, c *EvalCase) (*EvalCase, bool) {
 		n := cloneCase(c)
 		changed := false
@@ -427,7 +474,7 @@ func checkC20(seed uint64, replayDir, corpusDir string) (map[string]any, int) {
 		}
 	}
 	nv := reportUnitDisagreements("C20", t.dis, replayDir)
-	return t.frag("(configuration, context) pairs x eight perturbation families (unreferenced attribute, unreferenced kind, metadata of the evaluated flag, metadata of stored flags and segments, value/key order, clause order, appended rule, inserted never-matching rule): relation evaluated on the real code's full observable behaviour (oracle-free), model agreement on both sides; non-trivial = distinct perturbed cases on which the relation was evaluated", nil), nv
+	return t.frag("(configuration, context) pairs x nine perturbation families (unreferenced attribute, unreferenced kind, metadata of the evaluated flag, metadata of stored flags and segments, value/key order in the evaluated flag and in stored flags and segments, clause order, appended rule, inserted never-matching rule): relation evaluated on the real code's full observable behaviour (oracle-free), model agreement on both sides; non-trivial = distinct perturbed cases on which the relation was evaluated", nil), nv
 }
 
 func onlyBSSDiffers(a, b *WObs) bool {
@@ -510,7 +557,7 @@ func checkC12(seed uint64, replayDir, corpusDir string) (map[string]any, int) {
 				gg.ctxKeys = ctxKeysOf(&c.Ctx)
 				c.BS = gg.bigSegProvider(&c.Ctx, append(append([]WSegment{}, c.Store.Segments...), prev.Store.Segments...))
 			} else {
-				c = genStream(pick(r, []string{"wellformed", "prereqs", "bigseg", "segments", "malformed"}), r.fork(), fmt.Sprintf("C12/%d/%d/%d", seed, h, s))
+				c = genStream(pick(r, []string{"wellformed", "prereqs", "bigseg", "segments", "malformed", "manykinds", "targets"}), r.fork(), fmt.Sprintf("C12/%d/%d/%d", seed, h, s))
 				if prev != nil && r.chance(1, 2) {
 					// the next call sees an updated version of the previous store: some items replaced, some deleted
 					c.Store = mutateStore(r, &prev.Store, &c.Store)
